@@ -140,7 +140,19 @@ def roundtrip(model, route, tmpdir, i):
         loader = {'univariate': Univariate, 'bivariate': Bivariate, 'gaussian': Multivariate, 'vine': Multivariate}[kind]
         if kind == 'bivariate':
             return value(type(model).load, path, what='load') if i % 2 else value(Bivariate.load, path, what='Bivariate.load')
-        return value(loader.load, path, what='load')
+        first = value(loader.load, path, what='load')
+        # the file is read a second time after the first copy has been put to other use (re-fitted on another small table):
+        # what comes back is again what was saved
+        try:
+            import pandas as pd
+
+            if kind == 'univariate':
+                first.fit(np.array([1.0, 2.0, 4.0, 8.0]))
+            else:
+                first.fit(pd.DataFrame(np.random.RandomState(3).normal(size=(12, 2)), columns=['p', 'q']))
+        except Exception:
+            pass
+        return value(loader.load, path, what='load (second time)')
     d = value(model.to_dict, what='%s.to_dict' % type(model).__name__)
     if route == 'json':
         d = json.loads(json.dumps(d))
